@@ -56,6 +56,11 @@ def run(tier, seed, replay=None):
             # the highest name id of the input font is exactly 256 (255 / 257): the first free id for labels is the next one
             top = crng.choice([256, 256, 255, 257])
             prog.font = ttf.simple_font(prog.nglyphs, names=ttf.default_names("Verif", extra={top: "Stylistic Set 1"}))[0]
+        if i % 6 == 4:
+            # a symbol font: its Microsoft name records are under encoding 0 (3,0), with or without Macintosh records; labels
+            # go there, and are found there again on recompilation
+            plats = [(3, 0, 1033)] if (i // 6) % 2 == 0 else [(1, 0, 0), (3, 0, 1033)]
+            prog.font = ttf.simple_font(prog.nglyphs, names=ttf.default_names("Verif", platforms=tuple(plats)), symbol=True)[0]
         nstart = None
         opts = []
         if i % 4 == 3:
